@@ -28,6 +28,8 @@ pub struct Case {
     pub base: usize,
     /// apply `relevel` after the Sync call (mid-stream) instead of before the first call
     pub relevel_mid: bool,
+    /// the compressor object has been used for another stream and reset() before this one
+    pub pre_reset: bool,
 }
 
 pub fn input_of(c: &Case) -> Vec<u8> {
@@ -47,6 +49,12 @@ pub fn input_of(c: &Case) -> Vec<u8> {
 pub fn check(c: &Case) -> Result<(usize, usize), (String, String)> {
     let input = input_of(c);
     let mut comp = CompressorOxide::with_params(DataFormat::Zlib, c.level, STRATS[c.strat as usize], c.wbits);
+    if c.pre_reset {
+        // the window setting belongs to the object, not to its first stream
+        let mut scratch = vec![0u8; 4096];
+        let _ = compress(&mut comp, b"an earlier stream on the same object, an earlier stream", &mut scratch, TDEFLFlush::Finish);
+        comp.reset();
+    }
     if let (Some(l), false) = (c.relevel, c.relevel_mid) {
         comp.set_compression_level_raw(l);
     }
@@ -115,7 +123,7 @@ pub fn check(c: &Case) -> Result<(usize, usize), (String, String)> {
 }
 
 fn to_json(c: &Case) -> Value {
-    json!({"wbits": c.wbits, "level": c.level, "strat": c.strat, "relevel": c.relevel, "r": c.r, "filler": c.filler, "d": c.d, "sync_cut": c.sync_cut, "base": c.base, "relevel_mid": c.relevel_mid})
+    json!({"wbits": c.wbits, "level": c.level, "strat": c.strat, "relevel": c.relevel, "r": c.r, "filler": c.filler, "d": c.d, "sync_cut": c.sync_cut, "base": c.base, "relevel_mid": c.relevel_mid, "pre_reset": c.pre_reset})
 }
 
 pub fn run(tier: &str) -> i32 {
@@ -147,19 +155,23 @@ pub fn run(tier: &str) -> i32 {
                                 if !th && !near && (d + level as usize + r) % 3 != 0 {
                                     continue;
                                 }
-                                cases.push(Case { wbits: w, level, strat, relevel, r, filler, d, sync_cut: None, base: 0, relevel_mid: false });
+                                cases.push(Case { wbits: w, level, strat, relevel, r, filler, d, sync_cut: None, base: 0, relevel_mid: false, pre_reset: false });
+                                // the same on an object that was used and reset() before
+                                if relevel.is_none() && (near || d == 32768) && r != 40 {
+                                    cases.push(Case { wbits: w, level, strat, relevel, r, filler, d, sync_cut: None, base: 0, relevel_mid: false, pre_reset: true });
+                                }
                                 // level changes after the first (Sync-flushed) part of the stream
                                 if relevel.is_none() && filler == 0 && (near || d >= 4096) {
                                     for l in [1u8, 6, 9] {
                                         if !th && (l as usize + level as usize + strat as usize) % 3 != 0 {
                                             continue;
                                         }
-                                        cases.push(Case { wbits: w, level, strat, relevel: Some(l), r, filler, d, sync_cut: Some(d - 1), base: 0, relevel_mid: true });
+                                        cases.push(Case { wbits: w, level, strat, relevel: Some(l), r, filler, d, sync_cut: Some(d - 1), base: 0, relevel_mid: true, pre_reset: false });
                                     }
                                 }
                                 if near || th {
                                     for back in 0..=3usize {
-                                        cases.push(Case { wbits: w, level, strat, relevel, r, filler, d, sync_cut: Some(d - back), base: 0, relevel_mid: false });
+                                        cases.push(Case { wbits: w, level, strat, relevel, r, filler, d, sync_cut: Some(d - back), base: 0, relevel_mid: false, pre_reset: false });
                                     }
                                 }
                                 // the same repeat at absolute stream offsets around the 32 KiB dictionary
@@ -171,7 +183,7 @@ pub fn run(tier: &str) -> i32 {
                                             continue;
                                         }
                                         if at > d {
-                                            cases.push(Case { wbits: w, level, strat, relevel, r, filler, d, sync_cut: None, base: at - d, relevel_mid: false });
+                                            cases.push(Case { wbits: w, level, strat, relevel, r, filler, d, sync_cut: None, base: at - d, relevel_mid: false, pre_reset: false });
                                         }
                                     }
                                 }
@@ -210,7 +222,7 @@ pub fn run(tier: &str) -> i32 {
     rep.set("max_match_distance_seen", json!(maxd));
     rep.set("window_bits_values", json!(ws));
     rep.set("exhaustive", json!(true));
-    rep.set("rule", json!("with_params(Zlib, level 0..=10, 5 strategies, window_bits 8..=15 and the clamp values 0,1,7,16,255), optionally followed by set_compression_level_raw before the first call; inputs R(r) + filler(D-r) + R(r) (the same r incompressible bytes again D bytes later) for r in {8,40,258}, zero and periodic filler, D over a menu incl. window-1..window+3 for the configured window; one-shot and Sync-flush-at-D-0..3-then-Finish schedules, the latter also with set_compression_level_raw(1/6/9) between the two calls; the near-window and 32768 repeats additionally placed so that the second copy starts at absolute stream offsets 32773, 65532, 65573 and 131073 (dictionary wrap, 16-bit position wrap); oracle: header CINFO+8 <= max(w,8), every match distance in the reference trace <= declared window, crate decoder with a ring of exactly the declared size and system zlib with windowBits = CINFO+8 fed 64-byte output chunks both return the input; non-trivial = the stream contains a match at distance > 1; cases are distinct by construction"));
+    rep.set("rule", json!("with_params(Zlib, level 0..=10, 5 strategies, window_bits 8..=15 and the clamp values 0,1,7,16,255), optionally followed by set_compression_level_raw before the first call; inputs R(r) + filler(D-r) + R(r) (the same r incompressible bytes again D bytes later) for r in {8,40,258}, zero and periodic filler, D over a menu incl. window-1..window+3 for the configured window; one-shot (on a new object and on one used for another stream and reset()) and Sync-flush-at-D-0..3-then-Finish schedules, the latter also with set_compression_level_raw(1/6/9) between the two calls; the near-window and 32768 repeats additionally placed so that the second copy starts at absolute stream offsets 32773, 65532, 65573 and 131073 (dictionary wrap, 16-bit position wrap); oracle: header CINFO+8 <= max(w,8), every match distance in the reference trace <= declared window, crate decoder with a ring of exactly the declared size and system zlib with windowBits = CINFO+8 fed 64-byte output chunks both return the input; non-trivial = the stream contains a match at distance > 1; cases are distinct by construction"));
     rep.sample(to_json(&cases[cases.len() / 2]));
     rep.sample(to_json(&cases[cases.len() / 7]));
     if evals < 5000 || maxd < 16385 {
@@ -233,6 +245,7 @@ pub fn replay(v: &Value) -> Option<String> {
         sync_cut: v["sync_cut"].as_u64().map(|x| x as usize),
         base: v["base"].as_u64().unwrap_or(0) as usize,
         relevel_mid: v["relevel_mid"].as_bool().unwrap_or(false),
+        pre_reset: v["pre_reset"].as_bool().unwrap_or(false),
     };
     match guarded(|| check(&c)) {
         Ok(Ok(_)) => None,
